@@ -78,17 +78,23 @@ pub fn shrink_run(mut run: Run, fails: &dyn Fn(&Run) -> bool, opts: ShrinkOpts) 
                 }
                 t += 1;
             }
-            // drop scenarios no task refers to
+            // drop scenarios no task refers to — also a candidate to be verified: for some
+            // properties scenario 0 is the reference the others are compared with
             let mut s = 0;
             while s < run.scens.len() && run.scens.len() > 1 {
                 if run.specs.iter().all(|sp| sp.scen != s) {
-                    run.scens.remove(s);
-                    for sp in run.specs.iter_mut() {
+                    let mut c = run.clone();
+                    c.scens.remove(s);
+                    for sp in c.specs.iter_mut() {
                         if sp.scen > s {
                             sp.scen -= 1;
                         }
                     }
-                    continue;
+                    if try_candidate(&c, &mut tried) {
+                        run = c;
+                        progress = true;
+                        continue;
+                    }
                 }
                 s += 1;
             }
